@@ -368,15 +368,34 @@ static void k_hkdf(Tape &t)
 	Bytes info = t.filled(t.len(120, { 0, 1, 64 }));
 	size_t outl = t.len(1000, { 0, 1, 16, 32, 33, 64, 65 });
 	if (outl > 255 * h.outlen) outl = 255 * h.outlen;
+	// one case in six reads up to and beyond the documented limit of 255 hash lengths
+	bool to_limit = t.u8() % 6 == 5;
+	if (to_limit) outl = 255 * h.outlen;
 	std::vector<size_t> os = parts(t, outl);
+	size_t beyond = to_limit ? 1 + t.u8() % 200 : 0;
+	if (to_limit && !os.empty() && t.flag()) os.back() += beyond;   // the crossing call asks for more than is left
 	br_hkdf_context hc;
 	br_hkdf_init(&hc, h.cls, nosalt ? (const void *)BR_HKDF_NO_SALT : (const void *)salt.data(), salt.size());
 	size_t off = 0;
 	for (size_t k : ps) { br_hkdf_inject(&hc, ikm.data() + off, k); off += k; }
 	br_hkdf_flip(&hc);
-	Bytes got = zbuf(outl), want(outl ? outl : 1);
+	Bytes got = zbuf(outl + 2 * beyond + 600), want(outl ? outl : 1);
 	off = 0;
-	for (size_t k : os) { size_t r = br_hkdf_produce(&hc, info.data(), info.size(), got.data() + off, k); VF_CHECK(r == k, "HKDF produce returned %zu for %zu", r, k); off += k; }
+	for (size_t k : os) {
+		size_t r = br_hkdf_produce(&hc, info.data(), info.size(), got.data() + off, k), exp = std::min(k, outl - off);
+		VF_CHECK(r == exp, "HKDF-%s produce returned %zu for a request of %zu bytes at offset %zu (limit %zu)", h.name, r, k, off, 255 * h.outlen);
+		off += r;
+	}
+	if (to_limit) {
+		// the limit has been reached: nothing more may come out, however often and for however much the caller asks
+		for (int rep = 0; rep < 3; rep++) {
+			size_t ask = rep == 0 ? beyond : 1 + (beyond * (rep + 3)) % 300;
+			size_t r = br_hkdf_produce(&hc, info.data(), info.size(), got.data() + outl, ask);
+			VF_CHECK(r == 0, "HKDF-%s: %zu bytes (255 hash lengths, the documented maximum) were produced, yet call %d after that returned %zu more bytes for a request of %zu%s", h.name, outl, rep + 1, r, ask,
+				r && memcmp(got.data() + outl, got.data(), std::min(r, outl)) == 0 ? " - a repetition of the output from offset 0" : "");
+		}
+		stats.cls("hkdf-to-limit");
+	}
 	if (outl && !ikm.empty()) {
 		Bytes s2 = nosalt ? Bytes() : salt;
 		OSSL_PARAM p[6];
